@@ -8,6 +8,7 @@
 import Dc4bcVerif.Model.Run
 import Dc4bcVerif.Lemmas.FsmEngine
 import Dc4bcVerif.Props.C19
+import Dc4bcVerif.Lemmas.RoundStep
 
 namespace Dc4bcVerif.Props.C05
 open Dc4bcVerif.Gen Dc4bcVerif.Model
@@ -128,5 +129,122 @@ theorem route_reject_noop (i : Instance) (ea : Ev × Arg) (h : (i.doEv ea.1 ea.2
     have : (i.doEv ea.1 ea.2).2.resp = (doEvent (machineOf i.machine) runAction i.state i.payload ea.1 ea.2).resp := rfl
     rw [this, hd] at h; cases h
   exact C19.persistStep_not_ok i ea hres
+
+/-
+  Part 2: statements that depend on what the callbacks do. `RoundInv` is carried along every run
+  (induction over the event list); the per-phase outcome theorems (`Lemmas/SigPhase`,
+  `Lemmas/DkgPhases`, `Lemmas/MasterKeyPhase`) say what an accepted event does under it.
+-/
+
+/-- the invariant of a persisted round -/
+def RoundInv (i : Instance) : Prop := poolState i.state = some i.machine ∧ phaseInv i.state i.payload
+
+theorem machine_of_state {i : Instance} (h : poolState i.state = some i.machine) {s : St} (hs : i.state = s)
+    {m : MachineId} (hp : poolState s = some m) : i.machine = m := by
+  rw [hs, hp] at h; exact (Option.some.inj h).symm
+
+theorem roundInv_step (i : Instance) (ea : Ev × Arg) (h : RoundInv i) : RoundInv (persistStep i ea) := by
+  obtain ⟨e, a⟩ := ea
+  by_cases hok : (i.doEv e a).2.res = .ok
+  · obtain ⟨m, hm, hshape⟩ := C19.persistStep_ok_shape i (e, a) hok
+    rw [hshape]
+    refine ⟨hm, ?_⟩
+    show phaseInv (doEvent (machineOf i.machine) runAction i.state i.payload e a).state
+      (doEvent (machineOf i.machine) runAction i.state i.payload e a).payload
+    have hok' : (doEvent (machineOf i.machine) runAction i.state i.payload e a).res = .ok := hok
+    obtain ⟨hcons, hph⟩ := h
+    rcases state_classes i.state with hs | hs | hs | hs | hs | hs | hs | hs | hs
+    · have hmach := machine_of_state hcons hs (m := .sig) (by decide)
+      rw [hs] at hph; rw [hmach, hs] at hok' ⊢
+      exact idle_step_inv i.payload e a hph hok'
+    · have hmach := machine_of_state hcons hs (m := .sig) (by decide)
+      rw [hs] at hph; rw [hmach, hs] at hok' ⊢
+      obtain ⟨sc, hinv⟩ := hph
+      exact sigAwait_step_inv i.payload e a sc hinv hok'
+    · have hmach := machine_of_state hcons hs (m := .dkg) (by decide)
+      rw [hs] at hph; rw [hmach, hs] at hok' ⊢
+      obtain ⟨hd, sc, hsc, _, _⟩ := hph
+      exact sigCollected_step_inv i.payload e a hd sc hsc hok'
+    · have hmach := machine_of_state hcons hs (m := .dkg) (by decide)
+      rw [hs] at hph; rw [hmach, hs] at hok' ⊢
+      obtain ⟨dc, hinv⟩ := hph
+      exact commits_step_inv i.payload e a dc hinv hok'
+    · have hmach := machine_of_state hcons hs (m := .dkg) (by decide)
+      rw [hs] at hph; rw [hmach, hs] at hok' ⊢
+      obtain ⟨dc, hinv⟩ := hph
+      exact deals_step_inv i.payload e a dc hinv hok'
+    · have hmach := machine_of_state hcons hs (m := .dkg) (by decide)
+      rw [hs] at hph; rw [hmach, hs] at hok' ⊢
+      obtain ⟨dc, hinv⟩ := hph
+      exact responses_step_inv i.payload e a dc hinv hok'
+    · have hmach := machine_of_state hcons hs (m := .dkg) (by decide)
+      rw [hs] at hph; rw [hmach, hs] at hok' ⊢
+      obtain ⟨dc, hinv⟩ := hph
+      exact mk_step_inv i.payload e a dc hinv hok'
+    · have hmach : i.machine = .sign := by
+        have hp : poolState i.state = some .sign := by
+          revert hs; cases i.state <;> decide
+        rw [hp] at hcons; exact (Option.some.inj hcons).symm
+      rw [signFamily_phaseInv _ hs] at hph
+      rw [hmach]
+      exact signFamily_step_inv i.state hs i.payload e a hph
+    · exact cancelled_step_inv i.machine i.state hs i.payload e a
+  · rw [C19.persistStep_not_ok i (e, a) hok]; exact h
+
+/-- **Run theorem.** Every round, after any finite sequence of events (any events, participants,
+payloads, timestamps, accepted or rejected), satisfies the phase invariant of the state it is in. -/
+theorem round_invariant (id : String) (evs : List (Ev × Arg)) : RoundInv (run (Instance.create id) evs) := by
+  apply run_induction roundInv_step
+  exact ⟨C19.create_consistent id, rfl⟩
+
+/-- **unanimous** (commits phase; deals and responses are `deals_received_outcome`,
+`responses_received_outcome`, the invitation phase `sig_confirm_outcome`, key confirmation
+`mk_received_outcome`). For every reachable round in the commits phase and every accepted
+commit: the sender was still awaited (no participant contributes twice, unknown ids never),
+and the round moves on to the deals phase exactly when this was the last of the `n` participants;
+a late timestamp cancels; otherwise the phase continues. -/
+theorem unanimous_commits (id : String) (evs : List (Ev × Arg)) (a : Arg)
+    (hst : (run (Instance.create id) evs).state = sCommitsAwait)
+    (hok : (doEvent dkgMachine runAction sCommitsAwait (run (Instance.create id) evs).payload eCommitsOk a).res = .ok) :
+    ∃ dc, (run (Instance.create id) evs).payload.dkg = some dc ∧
+    ∃ pid data ts part, a = .commit pid data ts ∧ getAt dc.quorum pid = some part ∧ part.status = 0 ∧
+      (let out := doEvent dkgMachine runAction sCommitsAwait (run (Instance.create id) evs).payload eCommitsOk a
+       (dc.expiresAt < ts ∧ out.state = sCommitsCancTo) ∨
+       (¬ dc.expiresAt < ts ∧ cntDkg dc 1 + 1 = dc.quorum.length ∧ out.state = sCommitsNext) ∨
+       (¬ dc.expiresAt < ts ∧ cntDkg dc 1 + 1 < dc.quorum.length ∧ out.state = sCommitsAwait)) := by
+  have hinv := (round_invariant id evs).2
+  rw [hst] at hinv
+  obtain ⟨dc, hc⟩ := hinv
+  refine ⟨dc, hc.hdkg, ?_⟩
+  obtain ⟨pid, data, ts, part, ha, hg, hs, hcase⟩ := commits_received_outcome _ a dc hc hok
+  refine ⟨pid, data, ts, part, ha, hg, hs, ?_⟩
+  rcases hcase with ⟨h1, h2⟩ | ⟨h1, h2, h3, _⟩ | ⟨h1, h2, h3, _⟩
+  · exact Or.inl ⟨h1, h2⟩
+  · exact Or.inr (Or.inl ⟨h1, h2, h3⟩)
+  · exact Or.inr (Or.inr ⟨h1, h2, h3⟩)
+
+/-- **failure aborts**: in every phase of key generation an accepted error report puts the round
+into that phase's cancelled state (and `cancel_absorbing` keeps it there) -/
+theorem error_report_cancels (p : Payload) (a : Arg) :
+    ((doEvent dkgMachine runAction sCommitsAwait p eCommitsErr a).res = .ok →
+      cancelled (doEvent dkgMachine runAction sCommitsAwait p eCommitsErr a).state = true) ∧
+    ((doEvent dkgMachine runAction sDealsAwait p eDealsErr a).res = .ok →
+      cancelled (doEvent dkgMachine runAction sDealsAwait p eDealsErr a).state = true) ∧
+    ((doEvent dkgMachine runAction sResponsesAwait p eResponsesErr a).res = .ok →
+      cancelled (doEvent dkgMachine runAction sResponsesAwait p eResponsesErr a).state = true) ∧
+    ((doEvent dkgMachine runAction sMKAwait p eMKErr a).res = .ok →
+      cancelled (doEvent dkgMachine runAction sMKAwait p eMKErr a).state = true) := by
+  refine ⟨fun h => ?_, fun h => ?_, fun h => ?_, fun h => ?_⟩
+  · rw [commits_error_outcome p a h]; decide
+  · rw [deals_error_outcome p a h]; decide
+  · rw [responses_error_outcome p a h]; decide
+  · rw [mk_error_outcome p a h]; decide
+
+/-- non-vacuity: n = 2, t = 2 — both invited participants confirm, and the round reaches the point
+where the node hands over to key generation -/
+example : (run (Instance.create "r")
+    [(eSigInit, .sigInit [⟨"alice", [1,2,3,4,5,6,7,8,9,10], [1,2,3,4,5,6,7,8,9,10]⟩, ⟨"bobby", [1,2,3,4,5,6,7,8,9,10], [1,2,3,4,5,6,7,8,9,10]⟩] 2 1000),
+     (eSigConfirm, .sigPart 0 1001), (eSigConfirm, .sigPart 1 1002)]).state = sSigCollected := by
+  decide +kernel
 
 end Dc4bcVerif.Props.C05
